@@ -217,7 +217,13 @@ def judge_c02(rec):
         if e > S.EXACT_TOL + contraction_slack(rec, r0, d0, lv):
             out.append(V("C02", "violated", "state-changed", f"maxabs={e:.3g}", cell=cell, **sig))
         else:
-            out.append(V("C02", "held", cell=cell, **sig))
+            # the blocks the call re-arranged must themselves be valid, correctly tagged states (judgements of later
+            # calls are gated on that, so nobody else would look)
+            bad = post_invalid(rec, sorted(addressed_set(rec) & set(live(rec.post)))) if rec.exc is None else []
+            if bad:
+                out.append(V("C02", "violated", "post-state-invalid", f"{bad[0][0]}: {bad[0][1]}", cell=cell, **sig))
+            else:
+                out.append(V("C02", "held", cell=cell, **sig))
     if st["k"] == "trace_out":
         tg = st["targets"]
         cell2 = ("trace_out-value", sig["via"], sig["storage"], sig["level"], sc, len(tg))
